@@ -179,3 +179,256 @@ Theorem C02_tilesb_every_chrom_sentinel : forall chs l, tilesb chs l = true ->
   forall c, In c chs -> exists s, In s l /\ chrom s = c /\ endc s = MAXC.
 Proof. exact tilesb_every_chrom_sentinel. Qed.
 Print Assumptions C02_tilesb_every_chrom_sentinel.
+
+(* ---- "in a form that haptools' own breakpoint reader and karyogram accept" ------------------------ *)
+From HV Require Import BpText C02_Reader C02_ReaderCheck C02_ReaderRun.
+From HV Require C05_Model C18_Model.
+
+(* Breakpoints.read (C05's model, with or without its field-width refusal) of the text write_breakpoints
+   writes for 2n drawn haplotypes returns Ok: the samples Sample_1 .. Sample_n in order (C02_table_keys),
+   each with its two strands' blocks exactly as written.  Hypotheses: numpy's str -> uint32 inverts
+   Python's str(int) ([dec], concrete); per written tract: the label does not start with '#' and has
+   AT MOST 6 CHARACTERS (the reader's 'U6' field; labels are copied from the model file's header - see
+   C02_long_label_mangled), chromosome number 0..511, end 0..2^32-1, float(repr(cM)) = cM. *)
+Theorem C02_reader_accepts :
+  forall (pop_name fmt_cm : Z -> str) (strict : bool) (parse_int parse_flt : str -> res Z),
+  (forall z, 0 <= z <= 4294967295 -> parse_int (dec z) = Ok z) ->
+  forall (gen : list (list seg)) (idx : list Z) (n : nat) (rows : list bprow),
+  write_breakpoints gen idx = Ok rows -> length idx = (2 * n)%nat ->
+  (forall i h, In i idx -> nthZ gen i = Some h -> Forall (seg_ok pop_name fmt_cm parse_flt) h) ->
+  exists hs, Forall2 (fun h i => nthZ gen i = Some h) hs idx /\ length (pair_up hs) = n /\
+    C05_Model.bp_read strict parse_int parse_flt None (render pop_name fmt_cm rows)
+      = Ok (table pop_name 1 (pair_up hs)).
+Proof. exact reader_accepts. Qed.
+Print Assumptions C02_reader_accepts.
+
+Theorem C02_table_keys : forall pop_name ps k,
+  map fst (table pop_name k ps) = map (fun i => hdr_name (k + Z.of_nat i)) (seq 0 (length ps)).
+Proof. exact table_keys. Qed.
+Print Assumptions C02_table_keys.
+
+(* karyogram.GetHaplotypeBlocks (C18's model) on the same text, for every written sample m: two strands,
+   one block per written line in order ([C02_karyogram_blocks]).  Hypotheses: Python's int() inverts
+   str(int), chromosome numbers >= 0, float() reads the cM text. *)
+Theorem C02_karyogram_accepts :
+  forall (pop_name fmt_cm : Z -> str) (F : Type) (parse_flt : str -> res F) (parse_int : str -> res Z)
+         (eps0 : F) (plus_eps : F -> F) (fval : Z -> F),
+  (forall z, 0 <= z -> parse_int (dec z) = Ok z) ->
+  forall (gen : list (list seg)) (idx : list Z) (n : nat) (rows : list bprow),
+  write_breakpoints gen idx = Ok rows -> length idx = (2 * n)%nat ->
+  (forall i h, In i idx -> nthZ gen i = Some h -> Forall (seg_ok18 fmt_cm F parse_flt fval) h) ->
+  exists hs, Forall2 (fun h i => nthZ gen i = Some h) hs idx /\ length (pair_up hs) = n /\
+    forall m a b, 1 <= m -> nth_error (pair_up hs) (Z.to_nat (m - 1)) = Some (a, b) ->
+      C18_Model.parse_blocks F parse_flt parse_int eps0 plus_eps (hdr_name m) (render pop_name fmt_cm rows)
+        = Ok [kb pop_name F eps0 plus_eps fval [] a; kb pop_name F eps0 plus_eps fval [] b].
+Proof. exact karyogram_accepts. Qed.
+Print Assumptions C02_karyogram_accepts.
+
+Theorem C02_karyogram_blocks : forall pop_name F eps0 plus_eps fval h,
+  length (kb pop_name F eps0 plus_eps fval [] h) = length h /\
+  map C18_Model.h_pop (kb pop_name F eps0 plus_eps fval [] h) = map (fun s => pop_name (pop s)) h /\
+  map C18_Model.h_chrom (kb pop_name F eps0 plus_eps fval [] h) = map chrom h /\
+  map C18_Model.h_end (kb pop_name F eps0 plus_eps fval [] h) = map (fun s => fval (cm s)) h.
+Proof. exact kb_facts. Qed.
+Print Assumptions C02_karyogram_blocks.
+
+(* the whole run: the per-tract hypotheses follow from the tiling and label theorems; what remains are the
+   numpy draw contracts, the codecs and the field-width hypothesis on the names of the populations that
+   numpy's choice(p) can return *)
+Theorem C02_run_file_accepted :
+  forall (pop_name fmt_cm : Z -> str) (strict : bool) (parse_int parse_flt : str -> res Z),
+  (forall z, 0 <= z <= 4294967295 -> parse_int (dec z) = Ok z) ->
+  (forall m, parse_flt (fmt_cm m) = Ok m) ->
+  forall (F : Type) (kparse_flt : str -> res F) (kparse_int : str -> res Z) (eps0 : F) (plus_eps : F -> F) (fval : Z -> F),
+  (forall z, 0 <= z -> kparse_int (dec z) = Ok z) ->
+  (forall m, kparse_flt (fmt_cm m) = Ok (fval m)) ->
+  forall allowed : Z -> Prop,
+  (forall i, allowed i -> first_char_is c_hash (pop_name i) = false /\ (length (pop_name i) <= 6)%nat) ->
+  forall (maps : list mapfile) (r : run_in) (cs : list (list marker)) (n : nat),
+  prepare_coords maps (r_chroms r) (r_region r) = Ok cs ->
+  r_region r = None \/ length (r_chroms r) = 1%nat ->
+  incr (r_chroms r) -> (forall c, In c (r_chroms r) -> 0 <= c < 512) ->
+  gens_ok (r_chroms r) 0 (r_gens r) ->
+  Forall (Forall (fun d => d_pop d <> 0 -> allowed (d_pop d))) (r_gens r) ->
+  length (r_idx r) = (2 * n)%nat ->
+  (forall g, sim_generations (r_chroms r) (ends_of cs) [] (r_gens r) = Ok g ->
+             forall i, In i (r_idx r) -> 0 <= i < lenZ g) ->
+  exists g rows hs,
+    sim_generations (r_chroms r) (ends_of cs) [] (r_gens r) = Ok g /\
+    model_run maps r = Ok (cs, rows) /\
+    Forall2 (fun h i => nthZ g i = Some h) hs (r_idx r) /\ length (pair_up hs) = n /\
+    C05_Model.bp_read strict parse_int parse_flt None (render pop_name fmt_cm rows)
+      = Ok (table pop_name 1 (pair_up hs)) /\
+    forall m a b, 1 <= m -> nth_error (pair_up hs) (Z.to_nat (m - 1)) = Some (a, b) ->
+      C18_Model.parse_blocks F kparse_flt kparse_int eps0 plus_eps (hdr_name m) (render pop_name fmt_cm rows)
+        = Ok [kb pop_name F eps0 plus_eps fval [] a; kb pop_name F eps0 plus_eps fval [] b].
+Proof. exact run_file_accepted. Qed.
+Print Assumptions C02_run_file_accepted.
+
+(* the integer codec hypotheses are satisfiable for every z >= 0: Python's int() on what str() prints;
+   str(int) is injective (distinct samples get distinct headers) *)
+Theorem C02_dec_codec : forall z, 0 <= z -> undec (dec z) = Ok z.
+Proof. exact undec_dec. Qed.
+Print Assumptions C02_dec_codec.
+
+Theorem C02_dec_inj : forall a b, 0 <= a -> 0 <= b -> dec a = dec b -> a = b.
+Proof. exact dec_inj. Qed.
+Print Assumptions C02_dec_inj.
+
+(* the text is C05's bp_write of the paired table (so C05's round-trip theorem applies to it) *)
+Theorem C02_render_is_bp_write : forall pop_name fmt_cm ps k,
+  render pop_name fmt_cm (rows_of_pairs k ps) = C05_Model.bp_write dec fmt_cm (table pop_name k ps).
+Proof. exact render_is_bp_write. Qed.
+Print Assumptions C02_render_is_bp_write.
+
+(* hypotheses satisfiable / both readers run on a concrete file *)
+Example C02_reader_accepts_example :
+  write_breakpoints [[mkseg 2 1 MAXC 30; mkseg 1 23 MAXC 9]; [mkseg 1 1 5000 7; mkseg 2 1 MAXC 30; mkseg 2 23 MAXC 9]] [1; 0]
+    = Ok ex_rows /\
+  render (pop_of ex_pops) dec ex_rows
+    = [[hdr 1 1]; [[67; 69; 85]; [49]; [53; 48; 48; 48]; [55]];
+                  [[89; 82; 73]; [49]; [50; 49; 52; 55; 52; 56; 51; 54; 52; 55]; [51; 48]];
+                  [[89; 82; 73]; [50; 51]; [50; 49; 52; 55; 52; 56; 51; 54; 52; 55]; [57]];
+       [hdr 1 2]; [[89; 82; 73]; [49]; [50; 49; 52; 55; 52; 56; 51; 54; 52; 55]; [51; 48]];
+                  [[67; 69; 85]; [50; 51]; [50; 49; 52; 55; 52; 56; 51; 54; 52; 55]; [57]]] /\
+  C05_Model.bp_read true undec32 undec None (render (pop_of ex_pops) dec ex_rows)
+    = Ok (table (pop_of ex_pops) 1 (pair_up (map (fun r : bprow => snd r) ex_rows))) /\
+  C18_Model.parse_blocks Z undec undec (-1) (fun x => x + 1) (hdr_name 1) (render (pop_of ex_pops) dec ex_rows)
+    = Ok [[C18_Model.mkhb [67; 69; 85] 1 (-1) 7; C18_Model.mkhb [89; 82; 73] 1 8 30; C18_Model.mkhb [89; 82; 73] 23 (-1) 9];
+          [C18_Model.mkhb [89; 82; 73] 1 (-1) 30; C18_Model.mkhb [67; 69; 85] 23 (-1) 9]].
+Proof. exact reader_accepts_example. Qed.
+Print Assumptions C02_reader_accepts_example.
+
+(* the field-width hypothesis is needed: labels "EuropeB" / "EuropeC" are read back as one label "Europe"
+   by the reader without the refusal, refused (ValueError) by the reader with it; the karyogram reads them whole *)
+Example C02_long_label_mangled :
+  C05_Model.bp_read false undec32 undec None (render (pop_of ex_long_pops) dec ex_long_rows)
+    = Ok [(hdr_name 1, ([C05_Model.mkcb [69; 117; 114; 111; 112; 101] [49] MAXC 3],
+                        [C05_Model.mkcb [69; 117; 114; 111; 112; 101] [49] MAXC 3]))] /\
+  C05_Model.bp_read true undec32 undec None (render (pop_of ex_long_pops) dec ex_long_rows) = Err C05_Model.E_Value /\
+  C18_Model.parse_blocks Z undec undec (-1) (fun x => x + 1) (hdr_name 1) (render (pop_of ex_long_pops) dec ex_long_rows)
+    = Ok [[C18_Model.mkhb [69; 117; 114; 111; 112; 101; 66] 1 (-1) 3]; [C18_Model.mkhb [69; 117; 114; 111; 112; 101; 67] 1 (-1) 3]].
+Proof. exact long_label_mangled. Qed.
+Print Assumptions C02_long_label_mangled.
+
+(* the checker of relation bptext, when the reader half is judged, means: Breakpoints.read returned exactly the
+   written samples and blocks, the karyogram returned every sample's two strands block by block *)
+Theorem C02_holds_text_sound : forall k rows,
+  holds_text k = true -> t_judge_read k = true -> t_rows k = Ok rows ->
+  let ps := pair_up (map (fun r : bprow => snd r) rows) in
+  t_read k = Ok (table (pop_of (t_pops k)) 1 ps) /\
+  t_kary k = map (fun ab : list seg * list seg => Ok [kexpect (t_pops k) (fst ab); kexpect (t_pops k) (snd ab)]) ps.
+Proof. exact holds_text_sound. Qed.
+Print Assumptions C02_holds_text_sound.
+
+(* ---- the numpy statements before the per-child loop: contracts imply gens_ok ------------------------ *)
+From HV Require Import C02_Draws C02_DrawsCheck.
+
+(* the re-draw loop ends with a second parent different from the first, taken from the draws *)
+Theorem C02_redraw_distinct : forall a s b b' s', redraw a b s = Some (b', s') ->
+  a <> b' /\ (b' = b \/ In b' s) /\ exists used, s = used ++ s'.
+Proof. exact redraw_spec. Qed.
+Print Assumptions C02_redraw_distinct.
+
+(* Python's stable sort by (chromosome, cM) leaves an already ordered selection unchanged *)
+Theorem C02_sort_sorted_id : forall l, sorted_kev l -> sort_kev l = l.
+Proof. exact sort_sorted_id. Qed.
+Print Assumptions C02_sort_sorted_id.
+
+(* boolean-mask selection + sort on a map with increasing positions (<= sentinel) and non-decreasing cM:
+   the events are ordered as the per-child loop needs, and the sort changed nothing *)
+Theorem C02_decode_events_ok : forall chroms coords mask evs,
+  incr chroms -> Forall map_ok coords ->
+  decode_events chroms coords mask = Some evs ->
+  evs_ok chroms 0 (-1) evs /\
+  exists l, all_events chroms coords mask = Some l /\ evs = map (fun k : kev => snd k) l.
+Proof. exact decode_events_ok. Qed.
+Print Assumptions C02_decode_events_ok.
+
+(* one _simulate call: numpy's contract on the raw draws gives valid draws for every child; an admixed
+   child's two parents are in range of the previous generation and distinct *)
+Theorem C02_decode_gen_spec : forall chroms coords n nprev g,
+  incr chroms -> length coords = length chroms -> Forall map_ok coords ->
+  gen_contract chroms coords n nprev g ->
+  exists ds, decode_gen chroms coords g = Some ds /\ lenZ ds = n /\
+             Forall (child_ok chroms nprev) ds /\ map d_pop ds = gr_pp g.
+Proof. exact decode_gen_spec. Qed.
+Print Assumptions C02_decode_gen_spec.
+
+(* all generations: the contracts imply the hypothesis gens_ok of C02_generations_tile ... *)
+Theorem C02_contracts_gens_ok : forall chroms coords n,
+  incr chroms -> length coords = length chroms -> Forall map_ok coords ->
+  forall raws (m : nat), contracts chroms coords n (Z.of_nat m) raws ->
+  exists gens, decode_all chroms coords raws = Some gens /\ gens_ok chroms m gens.
+Proof. exact contracts_gens_ok. Qed.
+Print Assumptions C02_contracts_gens_ok.
+
+(* ... so a whole run tiles under the numpy contracts alone *)
+Theorem C02_run_tiles_from_contracts : forall maps chroms region cs n raws,
+  prepare_coords maps chroms region = Ok cs ->
+  (region = None \/ length chroms = 1%nat) ->
+  incr chroms -> (forall c, In c chroms -> 0 <= c) ->
+  Forall map_ok cs ->
+  contracts chroms cs n 0 raws ->
+  exists gens g, decode_all chroms cs raws = Some gens /\
+    sim_generations chroms (ends_of cs) [] gens = Ok g /\ gen_tiles chroms g.
+Proof. exact run_tiles_from_contracts. Qed.
+Print Assumptions C02_run_tiles_from_contracts.
+
+Theorem C02_gen_contractb_sound : forall chroms coords n nprev g,
+  gen_contractb chroms coords n nprev g = true -> gen_contract chroms coords n nprev g.
+Proof. exact gen_contractb_sound. Qed.
+Print Assumptions C02_gen_contractb_sound.
+
+Theorem C02_agree_draws_sound : forall k,
+  agree_draws k = true -> incr (dc_chroms k) -> length (dc_coords k) = length (dc_chroms k) ->
+  maps_okb (dc_coords k) = true ->
+  decode_gen (dc_chroms k) (dc_coords k) (dc_raw k) = Some (dc_decoded k) /\
+  lenZ (dc_decoded k) = dc_n k /\ Forall (child_ok (dc_chroms k) (dc_nprev k)) (dc_decoded k).
+Proof. exact agree_draws_sound. Qed.
+Print Assumptions C02_agree_draws_sound.
+
+Theorem C02_holds_draws_sound : forall k outs,
+  holds_draws k = true -> dc_outs k = Ok outs -> maps_okb (dc_coords k) = true ->
+  forall h, In h outs -> tiles (dc_chroms k) h.
+Proof. exact holds_draws_sound. Qed.
+Print Assumptions C02_holds_draws_sound.
+
+(* the contracts are satisfiable: two generations, a re-draw loop that runs twice *)
+Example C02_contracts_example :
+  contracts ex_chroms ex_coords 2 0 [ex_g1; ex_g2] /\ Forall map_ok ex_coords /\
+  decode_all ex_chroms ex_coords [ex_g1; ex_g2]
+    = Some [[mkcd 1 0 0 false [true; false] [mkev 1 5000 1]; mkcd 2 1 1 true [true; true] [mkev 2 10 0]];
+            [mkcd 0 1 0 true [false; true] [mkev 1 100 0; mkev 2 10 0]; mkcd 1 0 0 false [false; false] []]] /\
+  sim_generations ex_chroms (ends_of ex_coords) []
+     [[mkcd 1 0 0 false [true; false] [mkev 1 5000 1]; mkcd 2 1 1 true [true; true] [mkev 2 10 0]];
+      [mkcd 0 1 0 true [false; true] [mkev 1 100 0; mkev 2 10 0]; mkcd 1 0 0 false [false; false] []]]
+    = Ok [[mkseg 1 1 100 0; mkseg 2 1 MAXC 2; mkseg 2 2 10 0; mkseg 1 2 MAXC 5]; [mkseg 1 1 MAXC 2; mkseg 1 2 MAXC 5]].
+Proof. exact contracts_example. Qed.
+Print Assumptions C02_contracts_example.
+
+(* "centimorgan ends never decrease", end to end: from the raw numpy draws on a map whose positions strictly
+   increase (up to the sentinel) and whose cM never decreases, the run completes and every haplotype of the last
+   generation tiles the requested chromosomes with non-decreasing cM ends within each chromosome *)
+From HV Require Import C02_CmRun.
+Theorem C02_run_cm_monotone_from_contracts : forall maps chroms region cs n raws,
+  prepare_coords maps chroms region = Ok cs ->
+  (region = None \/ length chroms = 1%nat) ->
+  incr chroms -> (forall c, In c chroms -> 0 <= c) ->
+  Forall map_ok cs ->
+  contracts chroms cs n 0 raws ->
+  exists gens g, decode_all chroms cs raws = Some gens /\
+    sim_generations chroms (ends_of cs) [] gens = Ok g /\
+    forall h, In h g -> tiles chroms h /\ cm_monotone h = true.
+Proof. exact run_cm_monotone_from_contracts. Qed.
+Print Assumptions C02_run_cm_monotone_from_contracts.
+
+(* labels, from the raw draws: when every value np.random.choice(arange(K), p=fractions) returned is the admixed
+   index 0 or an allowed population (numpy returns only indices of positive probability), the last generation
+   carries allowed labels only - never the admixed pseudo-population *)
+Theorem C02_run_labels_from_raw : forall (allowed : Z -> Prop) chroms coords ends raws gens g,
+  decode_all chroms coords raws = Some gens ->
+  Forall (fun r => Forall (fun p => p <> 0 -> allowed p) (gr_pp r)) raws ->
+  sim_generations chroms ends [] gens = Ok g -> labels_in allowed g.
+Proof. exact run_labels_from_raw. Qed.
+Print Assumptions C02_run_labels_from_raw.
